@@ -83,6 +83,23 @@ def main(ctx: Ctx):
                             break
                         ws.append((s, w))
                     time.sleep(delay)
+                    # the accept loop may be in the middle of a client's request when it is asked to stop: a client that has
+                    # connected and stays silent for a second keeps the main thread of the server in recv_msg
+                    busy = how == 'terminate' and (T or ci % 2 == 1 or not states or states == ('cooperative',))
+                    desc['server_busy_with_silent_client'] = busy
+                    if busy:
+                        import socket
+                        import threading
+                        raw = socket.create_connection(srv.addr)
+
+                        def leave():
+                            time.sleep(1.0)
+                            try:
+                                raw.close()
+                            except Exception:
+                                pass
+                        threading.Thread(target=leave, daemon=True).start()
+                        time.sleep(0.3)
                     before = RP.descendants(spid)
                     if how == 'terminate':
                         st, r = watchdog(lambda: srv.terminate(timeout=5, force=True), 30)
@@ -104,7 +121,7 @@ def main(ctx: Ctx):
                         if not left and not RP.pid_alive(spid):
                             break
                         time.sleep(0.1)
-                    ctx.case((states, how, delay), len(states) > 0, sample={**desc, 'descendants_before': len(before), 'left_after': len(left)} if ci % 5 == 0 else None)
+                    ctx.case((states, how, delay, busy), len(states) > 0, sample={**desc, 'descendants_before': len(before), 'left_after': len(left)} if ci % 5 == 0 else None)
                     ctx.count(how)
                     if st != 'ok':
                         ctx.fail(f'server-terminate-{st}', f'server.terminate() {st} with children {states}', desc)
